@@ -12,6 +12,7 @@ the connections left open are compared with the advertised list.
 from __future__ import annotations
 
 import collections
+import logging
 
 from pymemcache.client.ext.aws_ec_client import AWSElastiCacheHashClient
 from pymemcache.exceptions import MemcacheError
@@ -68,9 +69,30 @@ def corpus(n):
     return [f"key{i}" for i in range(n // 2)] + [f"user:{i}:x".encode() for i in range(n - n // 2)]
 
 
+class _Formatting(logging.Handler):
+    """Renders every record (so lazily formatted arguments are evaluated) and drops it."""
+
+    def emit(self, record):
+        record.getMessage()
+
+
+def _library_logging(debug):
+    # the application's log level is part of the environment: with "+dbg" the library's loggers are at DEBUG
+    lg = logging.getLogger("pymemcache")
+    if not any(isinstance(h, _Formatting) for h in lg.handlers):
+        lg.addHandler(_Formatting())
+        lg.propagate = False
+    lg.setLevel(logging.DEBUG if debug else logging.NOTSET)
+    for name, child in list(logging.Logger.manager.loggerDict.items()):
+        if name.startswith("pymemcache.") and isinstance(child, logging.Logger):
+            child.setLevel(logging.NOTSET)
+            child.disabled = False
+
+
 class World:
     def __init__(self, L0, use_vpc, delivery, cut=None, version=9, traffic=True):
         self.traffic = traffic
+        _library_logging("+dbg" in delivery)
         self.tls = "+tls" in delivery
         self.pooled = "+pooled" in delivery  # use_pooling=True: every node gets a PooledClient
         self.ra = 1 if "+ra1" in delivery else 0
@@ -407,7 +429,7 @@ def run(chk):
     jobs = []
     for use_vpc in (True, False):
         for n0 in range(1, 7):
-            for delivery in ("whole", "byte", "whole+tls", "whole+pooled", "whole+pooled+ra1", "whole+ra1", "whole+v1"):
+            for delivery in ("whole", "byte", "whole+tls", "whole+pooled", "whole+pooled+ra1", "whole+ra1", "whole+v1", "whole+dbg"):
                 if "+" in delivery and n0 not in ((2, 3) if "+v1" not in delivery else (2, 3, 5)):
                     continue
                 jobs.append(("bfs", use_vpc, delivery, n0, chk.tier))
